@@ -411,9 +411,9 @@ def _chunks_exact_item(prog, fn, src, src_full, n):
     while p[0] == "ref" or (p[0] == "proj" and p[2] == ".*"):
         p = p[2] if p[0] == "ref" else p[1]
     if fn.kind == "Closure" and p[0] == "place" and fn.arg_count >= 2:
-        par = [vn for vn, l, pj in fn.var_places if l == 2 and not pj]
+        par = [vn for vn, l, pj in fn.var_places if 2 <= l <= fn.arg_count and not pj and "[u8]" in (fn.locals[l]["ty"] or "")]
         parent = prog.by_norm.get(fn.parent or "")
-        if par and p[1] == par[0] and parent is not None:
+        if par and p[1] in par and parent is not None:
             peb = ExprBuilder(prog, parent)
             for b, t in parent.all_calls():
                 e = peb.call(b, t)
